@@ -5,10 +5,11 @@ From GP Require Import Base C20Model Diamond C20Measure.
 From Coq Require Import Lia.
 Open Scope nat_scope.
 
-Lemma sync_excl_tau_c : forall g r d c a x, sync g r d c a = Some x -> tau_c g r d c = None.
+Lemma sync_excl_tau_c : forall g r d c a x, sync g r d c a = Some x -> tau_c g r d (is_parked a) c = None.
 Proof.
   intros g r d c a x H. unfold sync in H. unfold tau_c.
-  destruct (pc c); try discriminate; destruct a; try discriminate; destruct r, d; try discriminate; reflexivity.
+  destruct (pc c); try discriminate; destruct a; try discriminate; destruct r, d; try discriminate;
+    cbn [is_parked negb]; rewrite ?andb_false_r; reflexivity.
 Qed.
 
 Lemma sync_excl_tau_a : forall g r d c a x, sync g r d c a = Some x -> tau_a g a r d = None.
@@ -17,11 +18,13 @@ Proof.
   destruct (pc c); try discriminate; destruct a; try discriminate; reflexivity.
 Qed.
 
-Lemma tau_c_after_tau_a : forall g r d c c' a a' r' d',
-  tau_c g r d c = Some c' -> tau_a g a r d = Some (a', r', d') -> tau_c g r' d' c = Some c'.
+Lemma tau_c_after_tau_a : forall g r d pk pk' c c' a a' r' d', ack_nb g = false ->
+  tau_c g r d pk c = Some c' -> tau_a g a r d = Some (a', r', d') -> tau_c g r' d' pk' c = Some c'.
 Proof.
-  intros g r d c c' a a' r' d' Hc Ha. unfold tau_a in Ha. unfold tau_c in *.
+  intros g r d pk pk' c c' a a' r' d' Hnb Hc Ha. unfold tau_a in Ha. unfold tau_c in *.
+  rewrite Hnb in *. cbn [andb] in *.
   destruct a; try discriminate.
+  - injection Ha as _ <- <-. exact Hc.
   - destruct (negb (initiated g) || r) eqn:E.
     + injection Ha as _ <- <-. exact Hc.
     + injection Ha as _ <- <-. apply orb_false_iff in E. destruct E as [_ ->].
@@ -32,9 +35,9 @@ Proof.
       destruct (pc c); try discriminate; exact Hc.
 Qed.
 
-Theorem step_diamond : forall g, diamond (step g).
+Theorem step_diamond : forall g, ack_nb g = false -> diamond (step g).
 Proof.
-  intros g s s1 s2 H1 H2.
+  intros g Hnb s s1 s2 H1 H2.
   destruct H1 as [H1 | [H1 | H1]]; destruct H2 as [H2 | [H2 | H2]];
     try (left; congruence).
   - (* sync / tau_c *) exfalso. unfold do_sync, do_tau_c in *.
@@ -47,23 +50,23 @@ Proof.
     destruct (sync g (rc s) (dc s) (cs s) (ap s)) as [x|] eqn:E; [|discriminate].
     rewrite (sync_excl_tau_c _ _ _ _ _ _ E) in H1. discriminate.
   - (* tau_c / tau_a *) right. unfold do_tau_c, do_tau_a in *.
-    destruct (tau_c g (rc s) (dc s) (cs s)) as [c'|] eqn:Ec; [|discriminate].
+    destruct (tau_c g (rc s) (dc s) (is_parked (ap s)) (cs s)) as [c'|] eqn:Ec; [|discriminate].
     destruct (tau_a g (ap s) (rc s) (dc s)) as [[[a' r'] d']|] eqn:Ea; [|discriminate].
     injection H1 as <-. injection H2 as <-.
     exists (mkS c' a' r' d'). split.
     + right. right. unfold do_tau_a. cbn [cs ap rc dc]. rewrite Ea. reflexivity.
     + right. left. unfold do_tau_c. cbn [cs ap rc dc].
-      rewrite (tau_c_after_tau_a _ _ _ _ _ _ _ _ _ Ec Ea). reflexivity.
+      rewrite (tau_c_after_tau_a _ _ _ _ (is_parked a') _ _ _ _ _ _ Hnb Ec Ea). reflexivity.
   - exfalso. unfold do_sync, do_tau_a in *.
     destruct (sync g (rc s) (dc s) (cs s) (ap s)) as [x|] eqn:E; [|discriminate].
     rewrite (sync_excl_tau_a _ _ _ _ _ _ E) in H1. discriminate.
   - right. unfold do_tau_c, do_tau_a in *.
-    destruct (tau_c g (rc s) (dc s) (cs s)) as [c'|] eqn:Ec; [|discriminate].
+    destruct (tau_c g (rc s) (dc s) (is_parked (ap s)) (cs s)) as [c'|] eqn:Ec; [|discriminate].
     destruct (tau_a g (ap s) (rc s) (dc s)) as [[[a' r'] d']|] eqn:Ea; [|discriminate].
     injection H1 as <-. injection H2 as <-.
     exists (mkS c' a' r' d'). split.
     + right. left. unfold do_tau_c. cbn [cs ap rc dc].
-      rewrite (tau_c_after_tau_a _ _ _ _ _ _ _ _ _ Ec Ea). reflexivity.
+      rewrite (tau_c_after_tau_a _ _ _ _ (is_parked a') _ _ _ _ _ _ Hnb Ec Ea). reflexivity.
     + right. right. unfold do_tau_a. cbn [cs ap rc dc]. rewrite Ea. reflexivity.
 Qed.
 
@@ -114,32 +117,33 @@ Proof.
 Qed.
 
 (* the final state does not depend on the schedule *)
-Theorem maximal_runs_agree : forall g s n1 t1 n2 t2,
+Theorem maximal_runs_agree : forall g s n1 t1 n2 t2, ack_nb g = false ->
   steps (step g) n1 s t1 -> nf (step g) t1 -> steps (step g) n2 s t2 -> nf (step g) t2 ->
   t1 = t2 /\ n1 = n2.
-Proof. intros g s n1 t1 n2 t2 H1 N1 H2 N2. eapply nf_unique; eauto. apply step_diamond. Qed.
+Proof. intros g s n1 t1 n2 t2 Hnb H1 N1 H2 N2. eapply nf_unique; eauto. apply step_diamond. exact Hnb. Qed.
 
-Theorem run_is_the_outcome : forall g s n t, steps (step g) n s t -> nf (step g) t ->
+Theorem run_is_the_outcome : forall g s n t, ack_nb g = false -> steps (step g) n s t -> nf (step g) t ->
   run g (mu g s) s = (t, true).
 Proof.
-  intros g s n t Hs Hn. unfold run.
+  intros g s n t Hnb Hs Hn. unfold run.
   destruct (run_sched_spec g (fun _ => false) (mu g s) 0 s (le_n _)) as [n' [t' [Hr [Hs' [Hn' _]]]]].
-  destruct (maximal_runs_agree _ _ _ _ _ _ Hs Hn Hs' Hn') as [-> _]. exact Hr.
+  destruct (maximal_runs_agree _ _ _ _ _ _ Hnb Hs Hn Hs' Hn') as [-> _]. exact Hr.
 Qed.
 
-Theorem run_sched_independent : forall g sched s, run_sched g sched (mu g s) 0 s = run g (mu g s) s.
+Theorem run_sched_independent : forall g sched s, ack_nb g = false ->
+  run_sched g sched (mu g s) 0 s = run g (mu g s) s.
 Proof.
-  intros g sched s.
+  intros g sched s Hnb.
   destruct (run_sched_spec g sched (mu g s) 0 s (le_n _)) as [n [t [Hr [Hs [Hn _]]]]].
   rewrite Hr. symmetry. eapply run_is_the_outcome; eauto.
 Qed.
 
 (* any run, even a partial one, extends to the outcome: no schedule can avoid it *)
-Theorem every_run_extends : forall g s n u, steps (step g) n s u ->
+Theorem every_run_extends : forall g s n u, ack_nb g = false -> steps (step g) n s u ->
   exists m, steps (step g) m u (fst (run g (mu g s) s)).
 Proof.
-  intros g s n u Hs.
+  intros g s n u Hnb Hs.
   destruct (run_sched_spec g (fun _ => false) (mu g u) 0 u (le_n _)) as [m [t [Hr [Hs' [Hn _]]]]].
   exists m. pose proof (steps_trans _ _ _ _ _ Hs _ _ Hs') as Hall.
-  rewrite (run_is_the_outcome _ _ _ _ Hall Hn). exact Hs'.
+  rewrite (run_is_the_outcome _ _ _ _ Hnb Hall Hn). exact Hs'.
 Qed.
